@@ -22,10 +22,10 @@ ASSUMPTIONS = ["EXCHANGE_LIFETIME is the default 247 s of the incoming message's
                "copies coinciding (within 1e-9 s) with the empty-ACK timer, handler completion or the expiry timer "
                "are accepted either way"]
 EXPECTED_PROBES = ["transport_error_for_client", "dup_before_ack", "dup_after_empty_ack", "dup_after_piggyback", "dup_non", "dup_at_lifetime_minus",
-                   "dup_at_lifetime_plus", "same_mid_other_endpoint", "dup_same_instant", "same_mid_used_for_non_request_before", "wall_clock_step", "blockwise_upload", "bare_resource_as_site"]
+                   "dup_at_lifetime_plus", "same_mid_other_endpoint", "dup_same_instant", "same_mid_used_for_non_request_before", "wall_clock_step", "blockwise_upload", "bare_resource_as_site", "unserialisable_reply"]
 
 LIFETIME = 247.0
-HANDLERS = ["fast", "slow", "raise", "slowraise"]
+HANDLERS = ["fast", "slow", "raise", "slowraise", "unser"]
 SLOW = 0.4
 
 
@@ -259,6 +259,11 @@ def execute(sim, scn):
                 await asyncio.sleep(SLOW)
             if self.kind in ("raise", "slowraise"):
                 raise RuntimeError("handler failure")
+            if self.kind == "unser":
+                # a response that cannot be put on the wire (text where bytes belong): whatever becomes of it, the
+                # request has been passed to the application, and that happens once
+                sim.probe("unserialisable_reply")
+                return Message(payload="text, not bytes")
             return Message(payload=b"ok:" + bytes(request.token))
 
     async def setup():
@@ -356,8 +361,8 @@ def execute(sim, scn):
                 sim.violation("C04/request-after-lifetime-not-processed" if len(windows) > 1 and len(inv) >= 1
                               else "C04/request-not-processed", dict(ident, invocations=[i[0] for i in inv],
                                                                       windows=windows))
-        if ambiguous:
-            continue
+        if ambiguous or q["handler"] == "unser":
+            continue  # (what is sent in place of an unserialisable reply is C09's business)
         # what the server sent to this client under this MID / token
         sent = [e for e in wire if e["src"] == srv and e["dst"] == cl.addr and e["msg"] is not None]
         dur = SLOW if q["handler"] in ("slow", "slowraise") else 0.0
